@@ -184,6 +184,19 @@ def make(tier):
                        boost=("equation", "eqnarray", "thm", "float", "list"))
 
 
+def make_equations(tier):
+    """The same grammar narrowed to what moves the equation counter: headings, equations, eqnarray rows with and
+    without \\nonumber, counter commands (many documents of the full grammar have one equation at most)."""
+    excl = ["math-group-charsub", "math-eqnarray-charsub", "label-stale", "label-bullet"]
+    for key, tag in ((K_SET, "set-resets"), (K_EQ0, "eq-before-chapter"), (K_REPORT, "report-equation"),
+                     (K_PART, "part-number")):
+        if key in KNOWN:
+            excl.append(tag)
+    feats = frozenset(["sections", "display", "counters", "math", "secnumdepth", "labels"])
+    return L.documents(features=feats, exclude=excl, max_items=18, classes=("book", "report", "article", "book"),
+                       boost=("equation", "eqnarray", "eqnarray", "eqnarray"))
+
+
 def check(case):
     return judge(case)
 
@@ -265,6 +278,9 @@ RULE = ("docs: latexdoc documents (article/book/report, secnumdepth -1..5, theor
 
 STREAMS = [
     Stream("docs", "given", make, check, budget={"quick": 250, "thorough": 5000}, timeout=20.0, rule=RULE),
+    Stream("equations", "given", make_equations, check, budget={"quick": 150, "thorough": 3000}, timeout=20.0,
+           rule=RULE + " This stream narrows the grammar to headings, equation/eqnarray (rows with and without "
+                       "\\nonumber) and counter commands, so that most documents hold several numbered rows."),
     Stream("repr", "enum", lambda tier: (NBLOCKS + 1, repr_case), check_repr, timeout=60.0,
            rule="blocks of 100 consecutive counter values, all evaluated"),
 ]
